@@ -92,7 +92,7 @@ def ctl_corpus(tier):
     out.append(('M directive', 6, 'b {0}\nM {0},6 spanning comment\nB {0},3\nW {3},2\nB {5},1\ni {6}', None))
     out.append(('ignored middle', 6, 'b {0}\nB {0},2\ni {2}\nb {4}\nB {4},2,b1\ni {6}', None))
     for key, code in CODE.items():
-        if key == 'ld9':
+        if key in ('ld9', 'fill33', 'top', 'topjr'):
             continue
         n = len(code)
         out.append(('code %s' % key, n, 'c {0}\ni {%d}' % n, key))
@@ -100,21 +100,37 @@ def ctl_corpus(tier):
         if key != 'io':       # a port number is not a signed operand (see C02)
             out.append(('code %s base m' % key, n, 'c {0}\nC {0},m%d\ni {%d}' % (n, n), key))
         out.append(('code %s bases bd' % key, n, 'c {0}\nC {0},bd%d\ni {%d}' % (n, n), key))
+    # S sub-blocks that spell out the fill value, one and several statements long (memory holds that value)
+    out.append(('s explicit char value', 6, 's {0}\nS {0},6,2:c33\ni {6}', 'fill33'))
+    out.append(('s explicit hex value', 6, 's {0}\nS {0},6,h3:h33\ni {6}', 'fill33'))
+    out.append(('s explicit value whole', 6, 's {0}\nS {0},6,6:d33\ni {6}', 'fill33'))
+    # code that ends at the top of memory (relative jumps whose targets reach 65536 and beyond)
+    out.append(('code top of memory', 6, 'c {0}', 'top', 65530))
+    out.append(('code top of memory base h', 6, 'c {0}\nC {0},h6', 'top', 65530))
+    out.append(('code top of memory jr', 4, 'c {0}', 'topjr', 65532))
     out.append(('code then data', 9, 'c {0}\nC {0},2\nB {2},3,c\nW {5},2\nT {7},2\ni {9}', 'ld9'))
     return out
 
 
 CODE['ld9'] = [0x3E, None] + [None] * 7
+CODE['fill33'] = [33] * 6
+CODE['top'] = [0x3E, None, 0x18, None, 0x10, None]
+CODE['topjr'] = [0x20, None, 0x18, None]
 
 
-def fmt_ctl(text):
+def fmt_ctl(text, base=A):
     import re
-    return re.sub(r'\{(\d+)\}', lambda m: str(A + int(m.group(1))), text)
+    return re.sub(r'\{(\d+)\}', lambda m: str(base + int(m.group(1))), text)
+
+
+def corpus_entry(tier, ci):
+    e = ctl_corpus(tier)[ci]
+    return e if len(e) > 4 else e + (A,)
 
 
 def check_ctl(item):
     _, ci, hexmode, lower, sizes, opcodes, tier = item
-    name0, n, ctltext, codekey = ctl_corpus(tier)[ci]
+    name0, n, ctltext, codekey, A = corpus_entry(tier, ci)
     st = Stats()
     res = new_res()
     import skoolkit.ctlparser as cp
@@ -125,14 +141,14 @@ def check_ctl(item):
     asm = z80.Assembler()
     d = tempfile.mkdtemp(prefix='skverif_c01_')
     ctlfile = os.path.join(d, 't.ctl')
-    open(ctlfile, 'w').write(fmt_ctl(ctltext) + '\n')
+    open(ctlfile, 'w').write(fmt_ctl(ctltext, A) + '\n')
 
     def fn(path):
         snap = [0] * 65536
         code = CODE.get(codekey)
         # character-based statements fork ~10 ways per symbolic byte (printable? quote? backslash? inverted?): in shapes that
         # use them only two bytes are symbolic, the others are fixed to characters that exercise the escaping rules
-        ct = '\n' + fmt_ctl(ctltext)
+        ct = '\n' + fmt_ctl(ctltext, A)
         textual = any(x in ct for x in ('\nT ', '\nt ', 'c1', 'c2', 'c3', ':c', ',c'))
         fill = ct.startswith('\ns ') or '\nS ' in ct
         FIXED = [65, 34, 200, 92, 0, 126, 220, 32, 94, 127, 96, 162, 59, 44]
@@ -156,7 +172,7 @@ def check_ctl(item):
                 snap[A + k] = sym_int('m%d' % k, 0, 255)
         path.data['snapwin'] = snap[A:A + n]
         parser = cp.CtlParser()
-        parser.parse_ctls([ctlfile], A, A + n + 1)
+        parser.parse_ctls([ctlfile], A, min(A + n + 1, 65536))
         config = {'DefbSize': sizes[0], 'DefmSize': sizes[1], 'DefwSize': sizes[2], 'Opcodes': opcodes, 'Wrap': 0, 'HandleRST': 0, 'Title-b': '', 'Title-c': '', 'Title-g': '', 'Title-i': '',
                   'Title-s': '', 'Title-t': '', 'Title-u': '', 'Title-w': ''}
         dis = ss.Disassembly(snap, parser, config, hexmode, lower, final=False)
@@ -224,7 +240,7 @@ def check_ctl(item):
         res['nontrivial'] += 1
         if not res['samples']:
             ops = [i.operation for e in dis.entries for i in e.instructions if i.operation][:4]
-            res['samples'].append({'item': name, 'ctl': fmt_ctl(ctltext).split('\n'), 'statements': ops, 'verdict': 'unsat'})
+            res['samples'].append({'item': name, 'ctl': fmt_ctl(ctltext, A).split('\n'), 'statements': ops, 'verdict': 'unsat'})
 
     try:
         explore(fn, stats=st, on_path=on, max_paths=30000)
@@ -247,15 +263,15 @@ def replay(case):
     import skoolkit.snaskool as ss
     import skoolkit.z80 as z80
     import skoolkit.skoolutils as su
-    name0, n, ctltext, codekey = ctl_corpus(case['tier'])[case['ci']]
+    name0, n, ctltext, codekey, A = corpus_entry(case['tier'], case['ci'])
     d = tempfile.mkdtemp(prefix='skverif_c01_')
     try:
         ctlfile = os.path.join(d, 't.ctl')
-        open(ctlfile, 'w').write(fmt_ctl(ctltext) + '\n')
+        open(ctlfile, 'w').write(fmt_ctl(ctltext, A) + '\n')
         snap = [0] * 65536
         snap[A:A + n] = case['mem']
         parser = cp.CtlParser()
-        parser.parse_ctls([ctlfile], A, A + n + 1)
+        parser.parse_ctls([ctlfile], A, min(A + n + 1, 65536))
         sizes = case['sizes']
         config = {'DefbSize': sizes[0], 'DefmSize': sizes[1], 'DefwSize': sizes[2], 'Opcodes': case['opcodes'], 'Wrap': 0, 'HandleRST': 0}
         for t in 'bcgistuw':
